@@ -444,10 +444,10 @@ fn c17(tier: Tier, seed: u64, case: u64) -> CaseReport {
                             let ti = keys.iter().position(|x| *x == target).map(|p| p as i64).unwrap_or(-1);
                             if rng.chance(1, 2) {
                                 edges.push(format!("{}>item>{}", i, ti));
-                                t.push_str(&format!("- {}\n\n  [{}]({})\n\n- {}\n\n", words.next(&mut rng, false), words.next(&mut rng, false), rel, words.next(&mut rng, false)));
+                                t.push_str(&format!("- {}\n\n  [{}]({})\n\n- {}\n\n", words.next(&mut rng, false), words.next(&mut rng, false), mdscan::dest(&rel), words.next(&mut rng, false)));
                             } else {
                                 edges.push(format!("{}>quote>{}", i, ti));
-                                t.push_str(&format!("> {}\n>\n> [{}]({})\n\n", words.next(&mut rng, false), words.next(&mut rng, false), rel));
+                                t.push_str(&format!("> {}\n>\n> [{}]({})\n\n", words.next(&mut rng, false), words.next(&mut rng, false), mdscan::dest(&rel)));
                             }
                         }
                     }
@@ -466,7 +466,7 @@ fn c17(tier: Tier, seed: u64, case: u64) -> CaseReport {
                         let rel = mdscan::relativize(&target, &dir);
                         if !rel.starts_with("..") {
                             edges.push(format!("{}>{}", i, keys.iter().position(|x| *x == target).map(|p| p as i64).unwrap_or(-1)));
-                            t.push_str(&format!("[{}]({})\n\n", words.next(&mut rng, false), rel));
+                            t.push_str(&format!("[{}]({})\n\n", words.next(&mut rng, false), mdscan::dest(&rel)));
                         }
                     }
                 }
@@ -634,7 +634,7 @@ pub fn gen_outline_lib(rng: &mut Rng, n: usize, big: bool) -> (BTreeMap<String, 
                 if let Some(target) = keys.get(i + 1 + rng.below(3)).cloned() {
                     let rel = mdscan::relativize(&target, &dir);
                     shape.push(format!("d{}", target));
-                    t.push_str(&format!("[{}]({})\n\n", words.next(&mut rng, false), rel));
+                    t.push_str(&format!("[{}]({})\n\n", words.next(&mut rng, false), mdscan::dest(&rel)));
                 }
             }
         }
@@ -662,14 +662,14 @@ pub fn gen_outline_lib(rng: &mut Rng, n: usize, big: bool) -> (BTreeMap<String, 
                             let rel = mdscan::relativize(&target, &dir);
                             shape.push(format!("r{}", target));
                             under_heading.insert(target.clone());
-                            t.push_str(&format!("[{}]({})\n\n", words.next(&mut rng, false), rel));
+                            t.push_str(&format!("[{}]({})\n\n", words.next(&mut rng, false), mdscan::dest(&rel)));
                         }
                     }
                     _ => {
                         // inline links raise the rank of the target (root-level sources only)
                         if dir.is_empty() && !keys.is_empty() {
                             let target = rng.pick(&keys).clone();
-                            t.push_str(&format!("{} [{}]({})\n\n", words.next(&mut rng, false), words.next(&mut rng, false), target));
+                            t.push_str(&format!("{} [{}]({})\n\n", words.next(&mut rng, false), words.next(&mut rng, false), mdscan::dest(&target)));
                         } else {
                             t.push_str(&format!("{}\n\n", words.next(&mut rng, false)));
                         }
@@ -737,7 +737,7 @@ fn c18(tier: Tier, seed: u64, case: u64) -> CaseReport {
             };
             for _ in 0..rng.range(1, if big { 1 } else { 3 }) {
                 let target = rng.pick(&keys).clone();
-                t.push_str(&format!("[old ref]({})\n\n", mdscan::relativize(&target, &dir)));
+                t.push_str(&format!("[old ref]({})\n\n", mdscan::dest(&mdscan::relativize(&target, &dir))));
             }
             prior.insert(k.clone(), t);
             edited.push(k.clone());
